@@ -240,16 +240,29 @@ func c31ThresholdInsideMerged(x *histmodel.H, t float64, s int32) bool {
 	return false
 }
 
-// c31Class returns the signature suffix for a failure of "recv op other": narrow classes for the
-// two input features with known genuine defects, "" for everything else.
-func c31Class(recv, other *histmodel.H, recvLayout int) string {
-	if !recv.Custom && !other.Custom {
-		s := recv.Schema
-		if other.Schema < s {
-			s = other.Schema
-		}
-		if c31ThresholdInsideMerged(other, histmodel.CommonThreshold(recv, other), s) {
+// c31InsideMerged: for "recv op other" the common zero threshold is not a bucket boundary of the
+// lower schema and widening other's zero bucket absorbs a bucket that merges across it.
+func c31InsideMerged(recv, other *histmodel.H) bool {
+	if recv.Custom || other.Custom {
+		return false
+	}
+	s := recv.Schema
+	if other.Schema < s {
+		s = other.Schema
+	}
+	return c31ThresholdInsideMerged(other, histmodel.CommonThreshold(recv, other), s)
+}
+
+// c31Class returns the signature suffix for a failure of a chain of operations recv op o1 op o2 ...:
+// narrow classes for the two input features with known genuine defects, "" for everything else.
+func c31Class(recvLayout int, recv *histmodel.H, others ...*histmodel.H) string {
+	acc := recv
+	for _, o := range others {
+		if c31InsideMerged(acc, o) {
 			return "-zero-threshold-inside-merged-bucket"
+		}
+		if next, err := histmodel.Add(acc, o); err == nil {
+			acc = next
 		}
 	}
 	if recvLayout == 3 {
@@ -324,7 +337,7 @@ func c31Arith(r *vx.Run, a, b histmodel.Shape) {
 		}
 		got := histmodel.FromFloat(res)
 		if d := histmodel.Diff(want, got, tol); d != "" {
-			r.Violation(c31Sig(op, c31Class(a.Model, b.Model, a.Layout)), fmt.Sprintf("%s %s %s: %s (model vs implementation)\nmodel %v\ngot   %v", a.Name, op, b.Name, d, want, got), rp)
+			r.Violation(c31Sig(op, c31Class(a.Layout, a.Model, b.Model)), fmt.Sprintf("%s %s %s: %s (model vs implementation)\nmodel %v\ngot   %v", a.Name, op, b.Name, d, want, got), rp)
 		} else if op != "sub" && a.Name[:3] != "e23" && b.Name[:3] != "e23" {
 			if verr := c31Validate(res); verr != nil {
 				r.Violation(op+"-invalid-result", fmt.Sprintf("%s %s %s: %v", a.Name, op, b.Name, verr), rp)
@@ -439,11 +452,7 @@ func c31Chain(r *vx.Run, a, b, c histmodel.Shape) {
 		}
 		got := histmodel.FromFloat(res)
 		if d := histmodel.Diff(want, got, tol); d != "" {
-			cls := c31Class(a.Model, b.Model, a.Layout)
-			if cls == "" {
-				cls = c31Class(ab, c.Model, a.Layout)
-			}
-			r.Violation(c31Sig(op, cls), fmt.Sprintf("%s+%s+%s: %s (model vs implementation)\nmodel %v\ngot   %v", a.Name, b.Name, c.Name, d, want, got), rp)
+			r.Violation(c31Sig(op, c31Class(a.Layout, a.Model, b.Model, c.Model)), fmt.Sprintf("%s+%s+%s: %s (model vs implementation)\nmodel %v\ngot   %v", a.Name, b.Name, c.Name, d, want, got), rp)
 		}
 		r.Distinct("distinct_outcomes", want.String())
 	}
@@ -539,8 +548,9 @@ func TestVerifC31(t *testing.T) {
 	}
 	c31SelfTest(t, histmodel.ShapesAll())
 
+	all := histmodel.ShapesAll() // single-histogram operations are cheap: every layout in every tier
+	r.ParallelN(int64(len(all)), func(i int64) { c31Unary(r, all[i]) })
 	n := int64(len(shapes))
-	r.ParallelN(n, func(i int64) { c31Unary(r, shapes[i]) })
 	var pairs atomic.Int64
 	r.ParallelN(n*n, func(i int64) {
 		a, b := shapes[i/n], shapes[i%n]
